@@ -54,6 +54,11 @@ def materialise(g):
             for t in node["kids"]:
                 val.append(target(t))
             return val
+        if node["kind"] in ("set", "fset"):
+            members = [target(t) for t in node["kids"]]
+            val = set(members) if node["kind"] == "set" else frozenset(members)
+            objs[n] = val
+            return val
         if node["kind"] == "dict":
             val = {}
             objs[n] = val
@@ -191,7 +196,7 @@ def run():
     chk.model_violation_must_hold(res, "BuilderGen", "Faithful, SharingIsNotACycle, Terminates")
     chk.add_tlc(res, "Builder", "work-stack machine refines Unfold for all graphs with %d objects, <=%d slots, x cycle options" % (nobj, maxkids))
     graphs = []
-    for ks, n, mk in (('{"list","dict"}', 2, 2), ('{"list","tuple","dict"}', 1, 3)) + \
+    for ks, n, mk in (('{"list","dict"}', 2, 2), ('{"list","tuple","dict"}', 1, 3), ('{"list","set","fset"}', 2, 2)) + \
             ((('{"list","dict"}', 3, 1),) if t == "quick" else (('{"list","tuple","dict"}', 2, 2), ('{"list","dict"}', 3, 1))):
         cfg = ("SPECIFICATION EmitSpec\nCONSTANTS Scalars <- MCScalars Keys <- MCKeys NObj = %d MaxKids = %d Kinds = %s\n"
                "INVARIANT Emit\nCHECK_DEADLOCK FALSE\n" % (n, mk, ks))
@@ -210,14 +215,14 @@ def run():
         nobj_r = r.randint(3, 7)
         g = []
         for i in range(1, nobj_r + 1):
-            kind = r.choice(("list", "list", "dict", "tuple"))
+            kind = r.choice(("list", "list", "dict", "tuple", "set", "fset"))
             nk = r.choice((0, 0, 1, 2, 2, 3))
             if kind == "dict":
                 nk = min(nk, 3)
             kids = []
             for _ in range(nk):
                 c = r.random()
-                if c < 0.45:
+                if kind in ("set", "fset") or c < 0.45:
                     kids.append(-r.randint(1, 4))
                 elif c < 0.85:
                     kids.append(r.randint(min(i + 1, nobj_r), nobj_r))       # forward edge (tree / sharing)
@@ -236,6 +241,8 @@ def run():
         for (e, s, c, i) in (r.sample(combos, per_graph) if per_graph < len(combos) else combos):
             if e == "json" and (c, i) != (False, False):
                 continue       # json.build_tree has no cycle options
+            if e == "json" and any(nd["kind"] in ("set", "fset") for nd in g):
+                continue       # json.build_tree does not accept sets
             if cyc and e != "json" and not c:
                 # cyclic input with cycle checking switched off: neither a value nor termination is promised
                 skipped_unspecified += 1
